@@ -24,6 +24,13 @@ PATTERN_EXAMPLES = {
 }
 
 
+def _int(v):
+    try:
+        return max(0, min(int(v), 8))
+    except (TypeError, ValueError, OverflowError):
+        return 0
+
+
 def _type_candidates(schema):
     t = schema.get("type")
     if t is None:
@@ -93,7 +100,7 @@ def instance_of(draw, schema, depth=0):
             good, bad = PATTERN_EXAMPLES[s["pattern"]]
             pool = good * 3 + bad
         if "minLength" in s or "maxLength" in s:
-            lo, hi = s.get("minLength", 0), s.get("maxLength", 6)
+            lo, hi = _int(s.get("minLength", 0)), _int(s.get("maxLength", 6))
             sized = [x for x in pool if lo <= len(x) <= hi]
             if sized and draw(st.integers(0, 3)) > 0:
                 pool = sized
@@ -101,8 +108,8 @@ def instance_of(draw, schema, depth=0):
         return draw(st.sampled_from(pool))
     if ty == "array":
         items = s.get("items", True)
-        lo = s.get("minItems", 0)
-        hi = s.get("maxItems", max(lo, 3))
+        lo = _int(s.get("minItems", 0))
+        hi = _int(s.get("maxItems", max(lo, 3)))
         n = draw(st.integers(min(lo, 4), max(min(hi, 4), min(lo, 4))))
         out = []
         for i in range(n):
@@ -146,7 +153,7 @@ def instance_of(draw, schema, depth=0):
             key = draw(jv.keys)
             if key not in out:
                 out[key] = draw(instance_of(extra if isinstance(extra, dict) else {}, depth + 1))
-        lo = s.get("minProperties", 0)
+        lo = _int(s.get("minProperties", 0))
         while len(out) < lo and len(out) < 5:
             key = draw(st.sampled_from(["d", "e", "f", "g", "h", "a", "b"]))
             out.setdefault(key, draw(jv.scalars))
